@@ -202,7 +202,18 @@ func (p *Proxy) verifyOwnership() error {
 		cl.Watchdog = 10 * time.Second
 		res, err := cl.Do(wire.Cmd{Op: "set", Key: key, Value: []byte("x"), Opaque: 1})
 		cl.Close()
+		if err != nil && p.Alive() {
+			// second chance with a generous watchdog on a fresh connection (loaded machine)
+			if cl2, derr := p.Dial(port, true); derr == nil {
+				cl2.Watchdog = 40 * time.Second
+				res, err = cl2.Do(wire.Cmd{Op: "set", Key: key, Value: []byte("x"), Opaque: 2})
+				cl2.Close()
+			}
+		}
 		if err != nil || res.Class != "ok" {
+			if p.Alive() {
+				return &NotServingError{Port: port, Detail: fmt.Sprintf("%v %v", res.Class, err)}
+			}
 			return fmt.Errorf("ownership probe failed: %v %v", res.Class, err)
 		}
 		st := p.L1
@@ -224,6 +235,18 @@ func (p *Proxy) verifyOwnership() error {
 	}
 	p.ResetStores()
 	return nil
+}
+
+// NotServingError: the process is running and accepted the connection, but a plain set on a
+// fresh connection right after start-up was not answered with success (twice, the second time
+// with a 40 s watchdog).
+type NotServingError struct {
+	Port   int // 0 main, 1 batch
+	Detail string
+}
+
+func (e *NotServingError) Error() string {
+	return fmt.Sprintf("freshly started memproxy does not answer a set on its %s port: %s", []string{"main", "batch"}[e.Port], e.Detail)
 }
 
 var dirSeq int
